@@ -7,15 +7,20 @@ import MidnightZK.Model.C01.Parse
 import MidnightZK.Gen.C02Consts
 import MidnightZK.Model.C02.Fld
 import MidnightZK.Model.C02.CsParams
+import MidnightZK.Model.C02.Fill
 /-! Line-protocol handler of property C02:
-* `sat <cs fields> <table fields>` → verdicts of the row-level semantics;
+* `sat <cs fields> <table fields>` → verdicts of the row-level semantics (the unusable rows of the advice
+  columns are poisoned by the model itself, `Fill.applyPoison`, not taken from the dump);
 * `satrows <cs fields> <table fields> gr=… lr=…` → `verify_at_rows` on the given gate / lookup-input rows
   and whether `assert_satisfied` returns;
 * `ids <shape fields> <cs fields> nc=… inst=… tr=…` → every identity value the verifier folds,
   `y`, `x^n`, `expected_h_eval`, recomputed by `Model/C02/Identities.lean` from the recorded
   transcript scalars labelled with `Model/C01/Schedule.lean: verifierSchedule`;
 * `csparams <shape fields> <cs fields>` → `degree()`, `blinding_factors()`, column sets, usable rows;
-* `domain k=…` → `omega` of the evaluation domain and `F::DELTA` from the generated constants. -/
+* `domain k=…` → `omega` of the evaluation domain and `F::DELTA` from the generated constants;
+* `fixedcols n=… bl=… nf=… ops=…` → the fixed columns after replaying the requested writes through the
+  mirrors of `keygen.rs: Assembly::{assign_fixed, fill_from_row}` and of `MockProver`'s;
+* `mockinit n=… bl=… na=…` → the rows of every advice column `MockProver::run` poisons. -/
 namespace MidnightZK.C02.Driver
 open MidnightZK MidnightZK.C02 MidnightZK.C02.Parse
 
@@ -80,10 +85,38 @@ def answerCsParams (ws : List String) : Option String := do
   let bl := Ids.blindingFactors sh.advicePhase.length cs
   pure s!"deg={Ids.csDegree cs} bl={bl} sets={Ids.csNumSets cs} usable={2 ^ cs.k - (bl + 1)}"
 
+/-- `fixedcols`: both replays (`error` when a write is refused). -/
+def answerFixedCols (ws : List String) : Option String := do
+  let n ← parseNat? (← kv ws "n")
+  let bl ← parseNat? (← kv ws "bl")
+  let nf ← parseNat? (← kv ws "nf")
+  let ops ← Fill.parseOps (← kv ws "ops")
+  let usable := n - (bl + 1)
+  let key := match Fill.keyReplay n usable nf ops with
+    | some cols => Fill.renderCols cols
+    | none => "error"
+  let mock := match Fill.mockReplay n usable nf ops with
+    | some cols => Fill.renderCols (cols.map (List.map Fill.cellNat))
+    | none => "error"
+  pure s!"key={key} mock={mock}"
+
+/-- `mockinit`: poisoned rows of the `na` advice columns. -/
+def answerMockInit (ws : List String) : Option String := do
+  let n ← parseNat? (← kv ws "n")
+  let bl ← parseNat? (← kv ws "bl")
+  let na ← parseNat? (← kv ws "na")
+  let col := Fill.mockAdviceInit n (n - (bl + 1))
+  let (rows, tagged) := Fill.poisonRows col
+  let one := fmtNatList rows ++ (if tagged then "" else "!tag")
+  pure s!"poison={if na = 0 then "-" else "/".intercalate (List.replicate na one)}"
+
 def answer (line : String) : String :=
   match words line with
+  | "fixedcols" :: rest => (answerFixedCols rest).getD "bad-op"
+  | "mockinit" :: rest => (answerMockInit rest).getD "bad-op"
   | "sat" :: rest =>
-    match parseCase rest with
+    match (parseCase rest).map (fun (cs, t) =>
+        (cs, { t with advice := t.advice.map (Fill.applyPoison (t.n - (cs.blinding + 1))) })) with
     | some (cs, t) =>
       s!"rowSat={fmtBool (rowSat cs t)} mock={fmtBool (mockOK cs t)} gt={fmtBool (gatesOK cs t && trashOK cs t)} lookups={fmtBool (lookupsOKMock cs t)} copies={fmtBool (copiesOK cs t)}"
     | none => "bad-op"
